@@ -187,6 +187,75 @@ func ruleC20Stale(c *ctx.Ctx, r *core.Reporter) {
 	})
 	iRead := stmtIndex(c, ds.Body, func(s string, _ ast.Stmt) bool { return strings.Contains(s, "c.Read(") })
 	r.Check(iTime >= 0 && iCmp > iTime && iRead > iCmp, "stale:compare-before-read", c.Pos(ds.Pos()), fmt.Sprintf("deserialize decodes the build time (stmt %d), returns old=true if the sources are newer (%d) and only otherwise decodes the payload (%d)", iTime, iCmp, iRead))
+	// the time that is compared on load is the time that was handed to Store: it reaches the encoder as the
+	// plain parameter (no rounding, no truncation, no clock read) and is compared as decoded
+	{
+		tparam := ""
+		for _, f := range sr.Type.Params.List {
+			if exprStr(f.Type) == "time.Time" && len(f.Names) == 1 {
+				tparam = f.Names[0].Name
+			}
+		}
+		// first Encode call of serialize
+		var first *ast.CallExpr
+		ast.Inspect(sr.Body, func(n ast.Node) bool {
+			if call, ok := n.(*ast.CallExpr); ok && first == nil {
+				if sel, ok := call.Fun.(*ast.SelectorExpr); ok && sel.Sel.Name == "Encode" && len(call.Args) == 1 {
+					first = call
+				}
+			}
+			return true
+		})
+		okEnc := first != nil && tparam != "" && exprStr(first.Args[0]) == tparam
+		reassigned := false
+		ast.Inspect(sr.Body, func(n ast.Node) bool {
+			if as, ok := n.(*ast.AssignStmt); ok {
+				for _, l := range as.Lhs {
+					if exprStr(l) == tparam {
+						reassigned = true
+					}
+				}
+			}
+			return true
+		})
+		got := "<none>"
+		if first != nil {
+			got = exprStr(first.Args[0])
+		}
+		r.Check(okEnc && !reassigned, "stale:build-time-stored-verbatim", c.Pos(sr.Pos()), fmt.Sprintf("serialize writes its build-time parameter itself as the header (`Encode(%s)`): a rounded or re-read time makes `srcModTime.After(buildTime)` answer for a different instant", got))
+		// Store hands its own parameter on
+		if st := c.FuncDecl(cachePkg, "BuildCache.Store"); st != nil {
+			sparam := ""
+			for _, f := range st.Type.Params.List {
+				if exprStr(f.Type) == "time.Time" && len(f.Names) == 1 {
+					sparam = f.Names[0].Name
+				}
+			}
+			pass := false
+			for _, m := range findGoPattern(st.Body, `µbc.serialize(µc, µt, µf)`) {
+				if m.Env["µt"] == sparam && sparam != "" {
+					pass = true
+				}
+			}
+			r.Check(pass, "stale:store-passes-build-time", c.Pos(st.Pos()), "Store hands the caller's build time to serialize unchanged")
+		}
+		// deserialize compares the decoded value itself
+		dec := findGoPattern(ds.Body, `µgd.Decode(&µt)`)
+		cmp := findGoPattern(ds.Body, `µs.After(µt)`)
+		okCmp := len(dec) >= 1 && len(cmp) == 1 && dec[0].Env["µt"] == cmp[0].Env["µt"]
+		if okCmp {
+			// the source time is deserialize's parameter
+			okCmp = false
+			for _, f := range ds.Type.Params.List {
+				for _, nm := range f.Names {
+					if nm.Name == cmp[0].Env["µs"] && exprStr(f.Type) == "time.Time" {
+						okCmp = true
+					}
+				}
+			}
+		}
+		r.Check(okCmp, "stale:compares-decoded-time", c.Pos(ds.Pos()), "deserialize compares the caller's source modification time with the decoded build time itself")
+	}
 	// Load: return true is the last statement; preceded by err check and old check both returning false
 	iErr := stmtIndex(c, ld.Body, func(s string, _ ast.Stmt) bool {
 		return strings.HasPrefix(s, "if err != nil") && strings.Contains(s, "return false") && !strings.Contains(s, "os.IsNotExist")
